@@ -14,16 +14,17 @@ POLICIES = ["LEGAL_UNIFORM", "MASK_UNIFORM", "LEGAL_FIRST", "LEGAL_LAST", "UNIFO
 
 class Plan:
     def __init__(self, weights: Dict[str, float], illegal_rate: float = 0.0, post_terminal: int = 0,
-                 max_steps: int = 200, sticky: bool = False):
+                 max_steps: int = 200, sticky: bool = False, follow_env_mask: bool = False):
         self.weights = weights
         self.illegal_rate = illegal_rate
         self.post_terminal = post_terminal
         self.max_steps = max_steps
         self.sticky = sticky  # keep one policy for the whole run
+        self.follow_env_mask = follow_env_mask  # policies choose within the env's own mask (mask-respecting play)
 
     def describe(self) -> Dict[str, Any]:
         return {"weights": self.weights, "illegal_rate": self.illegal_rate, "post_terminal": self.post_terminal,
-                "max_steps": self.max_steps, "sticky": self.sticky}
+                "max_steps": self.max_steps, "sticky": self.sticky, "follow_env_mask": self.follow_env_mask}
 
 
 def swarm_weights(rng: np.random.Generator, allowed: List[str], k_min: int = 1, k_max: int = 3) -> Dict[str, float]:
@@ -52,7 +53,7 @@ class GenericScheduler(OpSource):
         ad = self.sys.adapter
         envmask = ad.env_mask(rec.ts.observation) if ad.mask_mode else None
         b = ad.legal_bounds(rec.state, self.sys.env) if ad.mask_mode else None
-        if b is None:
+        if b is None or (self.plan.follow_env_mask and envmask is not None):
             return envmask, envmask, envmask
         lo, hi = b
         return lo, hi, envmask
@@ -62,7 +63,7 @@ class GenericScheduler(OpSource):
         legal = lo if (lo is not None and lo.any()) else hi
         if ad.mask_mode is None or legal is None:
             if name in ("SURVIVE", "COMPLETE", "COLLIDE"):
-                a = getattr(ad, "policy_" + name.lower())(rec.state, env, rng, None)
+                a = getattr(ad, "policy_" + name.lower())(rec.state, env, rng, envmask)
                 if a is not None:
                     return a, False
             return ad.inspec_action(env, rng), False
@@ -70,6 +71,10 @@ class GenericScheduler(OpSource):
             return ad.inspec_action(env, rng), False
         if name == "MASK_UNIFORM" and envmask is not None:
             return ad.pick(envmask, rng)
+        if name == "MASK_FIRST" and envmask is not None:
+            return ad.pick(envmask, rng, "first")
+        if name == "MASK_LAST" and envmask is not None:
+            return ad.pick(envmask, rng, "last")
         if name == "LEGAL_FIRST":
             return ad.pick(legal, rng, "first")
         if name == "LEGAL_LAST":
